@@ -109,6 +109,24 @@ Definition warnings_complete (upto : Z) (e : ment) : bool :=
 Definition times_within (lo hi : Z) (outs : list cout) : bool :=
   forallb (fun o => match o with OSig t _ _ => (lo <=? t) && (t <=? hi) | OLookup _ => true end) outs.
 
+(* exact advance to t: expiries in order of expiry instant, warnings on schedule and complete *)
+Definition mon_adv (s : mstate) (t : Z) (outs : list cout) : mres :=
+  let now := ms_now s in
+      if t <? now then MBad 10 else
+      if existsb is_lookup outs then MBad 1 else
+      if negb (times_within now t outs) then MBad 9 else
+      let due := filter (fun e => me_expiry e <=? t) (ms_live s) in
+      let obs := filter_map out_expired outs in
+      if negb (expired_eqb obs (sort_by_expiry due)) then MBad 2 else
+      if negb (announced_gone obs) then MBad 3 else
+      match note_warnings (filter_map out_warning outs) (ms_live s) with
+      | inr c => MBad c
+      | inl live1 =>
+          if negb (forallb (fun e => warnings_complete (if me_expiry e <=? t then me_expiry e else t) e) live1)
+          then MBad 7 else
+          MOk (mkMstate t (filter (fun e => negb (me_expiry e <=? t)) live1))
+      end.
+
 Definition mon_step (s : mstate) (o : cop) (outs : list cout) : mres :=
   let now := ms_now s in
   match o with
@@ -123,20 +141,14 @@ Definition mon_step (s : mstate) (o : cop) (outs : list cout) : mres :=
       then MBad 2 else
       if negb (announced_gone obs) then MBad 3 else
       MOk (mkMstate now (kept ++ (if (r_ttl r =? 0)%N then [] else [mkMent r now 0])))
-  | CAdv t =>
-      if t <? now then MBad 10 else
-      if existsb is_lookup outs then MBad 1 else
-      if negb (times_within now t outs) then MBad 9 else
-      let due := filter (fun e => me_expiry e <=? t) (ms_live s) in
-      let obs := filter_map out_expired outs in
-      if negb (expired_eqb obs (sort_by_expiry due)) then MBad 2 else
-      if negb (announced_gone obs) then MBad 3 else
-      match note_warnings (filter_map out_warning outs) (ms_live s) with
-      | inr c => MBad c
-      | inl live1 =>
-          if negb (forallb (fun e => warnings_complete (if me_expiry e <=? t then me_expiry e else t) e) live1)
-          then MBad 7 else
-          MOk (mkMstate t (filter (fun e => negb (me_expiry e <=? t)) live1))
+  | CAdv t => mon_adv s t outs
+  | CAdvB t =>
+      (* everything due strictly before t has happened; what is due exactly at t is still pending, so the
+         records expiring at t are still held and their expiry is owed to the next advance *)
+      if t <=? now then (if (length outs =? 0)%nat then MOk s else MBad 1) else
+      match mon_adv s (t - 1) outs with
+      | MOk s' => MOk (mkMstate t (ms_live s'))
+      | bad => bad
       end
   | CLate _ => MBad 10
   | CLookup name type =>
